@@ -49,6 +49,30 @@ def cc_eval(run, items, includes, defs=(), pre=""):
     return out
 
 
+def probe(run, text, tag):
+    """Compile and run a small probe program built from source text of the snapshot (translation by evaluation: used only when the
+    textual form of a table-like function is not recognised).  Returns its stdout lines, or None."""
+    exe = os.path.join(run.scratch, "probe_" + tag)
+    p = subprocess.run(["gcc", "-x", "c", "-", "-o", exe, "-I" + run.tree, "-I" + os.path.join(run.tree, "src"), "-DHAVE_CONFIG_H", "-D_GNU_SOURCE", "-w"],
+                       input=text, text=True, stdout=subprocess.PIPE, stderr=subprocess.STDOUT)
+    if p.returncode != 0:
+        return None
+    try:
+        r = subprocess.run([exe], stdout=subprocess.PIPE, stderr=subprocess.DEVNULL, text=True, timeout=20)
+    except subprocess.TimeoutExpired:
+        return None
+    return r.stdout.splitlines() if r.returncode == 0 else None
+
+
+def func_def(src, name, rettype):
+    """Text of a complete definition `rettype name(params) { body }` rebuilt from the (comment-stripped) source, or None."""
+    m = re.search(r"\b" + re.escape(name) + r"\s*\(([^;{)]*)\)\s*\{", src)
+    body = func_body(src, name)
+    if not m or body is None:
+        return None
+    return "%s %s(%s) {%s}\n" % (rettype, name, m.group(1), body)
+
+
 def preprocess(run, rel, defs=()):
     p = subprocess.run(["gcc", "-E", "-P", "-DHAVE_CONFIG_H", "-I" + run.tree, "-I" + os.path.join(run.tree, "src"), "-w"] + list(defs) + [os.path.join(run.tree, rel)],
                        stdout=subprocess.PIPE, stderr=subprocess.PIPE, text=True, errors="replace")
@@ -163,7 +187,24 @@ def tr_config(run):
             return bytes(out)
         v["bool_true"], v["bool_false"] = letters(m.group(1)), letters(m.group(2))
     else:
+        # not the two-armed if: read the function by running it on every first byte (and check that only the first byte decides)
         v["bool_true"] = v["bool_false"] = None
+        fd = func_def(cf, "snoopy_configfile_getboolean", "int")
+        if fd:
+            out = probe(run, '#include "snoopy.h"\n#include <stdio.h>\n' + fd + """
+int main(void){ char b[4]; for (int i = 1; i < 256; i++) { b[0]=(char)i; b[1]=0; int r0 = snoopy_configfile_getboolean(b, -1);
+  b[1]='x'; b[2]=0; int r1 = snoopy_configfile_getboolean(b, -1); b[1]=(char)(i ^ 0x55 ? i ^ 0x55 : 1); int r2 = snoopy_configfile_getboolean(b, -1);
+  int r3 = snoopy_configfile_getboolean(b, 7);
+  printf("%d %d %d %d %d\\n", i, r0, r1, r2, r3); } printf("e %d %d\\n", snoopy_configfile_getboolean("", -1), snoopy_configfile_getboolean("", 7)); return 0; }""", "getboolean")
+            tv = cc_eval(run, [("t", "i", "SNOOPY_TRUE"), ("f", "i", "SNOOPY_FALSE")], ['"snoopy.h"'])
+            if out and len(out) == 256 and "t" in tv and "f" in tv:
+                rows_ = [list(map(int, l.split())) for l in out[:255]]
+                first_only = all(r_[1] == r_[2] == r_[3] for r_ in rows_) and all((r_[4] == 7) == (r_[1] == -1) for r_ in rows_) and out[255] == "e -1 7"
+                known_ = all(r_[1] in (tv["t"], tv["f"], -1) for r_ in rows_)
+                if first_only and known_:
+                    v["bool_true"] = bytes(r_[0] for r_ in rows_ if r_[1] == tv["t"])
+                    v["bool_false"] = bytes(r_[0] for r_ in rows_ if r_[1] == tv["f"])
+                    note("getboolean read by evaluation over all first bytes (textual form not the two-armed if)")
     pb = func_body(cf, "snoopy_configfile_parseValue_error_logging") or ""
     if not re.search(r"confValInt\s*=\s*snoopy_configfile_getboolean\s*\(\s*confValString\s*,\s*-1\s*\)\s*;\s*if\s*\(\s*-1\s*!=\s*confValInt\s*\)\s*\{\s*CFG->error_logging_enabled\s*=\s*confValInt\s*;", pb):
         note("parseValue_error_logging not recognised")
@@ -314,11 +355,84 @@ def tr_config(run):
             note("%s: ladder not recognised" % fn)
             return None
         return [(mv[m_], c_unescape(n)) for m_, n in rows_]
+    n0 = len(notes)
     v["fac_to_int"] = to_int_table("snoopy_util_syslog_convertFacilityToInt", "SNOOPY_SYSLOG_FACILITY")
     v["lvl_to_int"] = to_int_table("snoopy_util_syslog_convertLevelToInt", "SNOOPY_SYSLOG_LEVEL")
     v["fac_to_str"] = to_str_table(f2s, fcnt, "convertFacilityToStr")
     v["lvl_to_str"] = to_str_table(l2s, lcnt, "convertLevelToStr")
     v["syslog_invalid"] = finv if finv is not None and finv == linv else None
+    if None in (v["fac_to_int"], v["lvl_to_int"], v["fac_to_str"], v["lvl_to_str"], v["syslog_invalid"]):
+        # a ladder was rewritten (switch, table + loop, ...): read the four functions by running util/syslog.c itself.
+        # Candidate names: every upper-case string literal of the file and every documented name; codes 0..1023 for the reverse direction.
+        cand = sorted(set(re.findall(r'"([A-Z][A-Z0-9]*)"', sy)) | set(re.findall(r"\b(?:AUTH|AUTHPRIV|CRON|DAEMON|FTP|KERN|LOCAL[0-7]|LPR|MAIL|NEWS|SYSLOG|USER|UUCP|EMERG|ALERT|CRIT|ERR|WARNING|NOTICE|INFO|DEBUG)\b", run.src("etc/snoopy.ini.in"))))
+        prog = '#include "%s"\n#include <stdio.h>\nstatic const char *N[] = {%s, 0};\n' % (os.path.join(run.tree, "src/util/syslog.c"), ", ".join('"%s"' % c_ for c_ in cand)) + """
+static void hx(const char *s){ for (; *s; s++) printf("%02x", (unsigned char)*s); }
+int main(void){ char buf[64];
+  printf("U %d %d\\n", snoopy_util_syslog_convertFacilityToInt("\\001nonsense"), snoopy_util_syslog_convertLevelToInt("\\001nonsense"));
+  printf("I "); hx(snoopy_util_syslog_convertFacilityToStr(-12345)); printf(" "); hx(snoopy_util_syslog_convertLevelToStr(-12345)); printf("\\n");
+  for (int i = 0; N[i]; i++) { printf("N %s", N[i]);
+    const char *pre[] = {"", "LOG_", "LOG_LOG_", "XYZ_", "LOG"};
+    for (int k = 0; k < 5; k++) { snprintf(buf, sizeof buf, "%s%s", pre[k], N[i]); printf(" %d %d", snoopy_util_syslog_convertFacilityToInt(buf), snoopy_util_syslog_convertLevelToInt(buf)); }
+    snprintf(buf, sizeof buf, "%sX", N[i]); printf(" %d %d", snoopy_util_syslog_convertFacilityToInt(buf), snoopy_util_syslog_convertLevelToInt(buf));
+    snprintf(buf, sizeof buf, "%s", N[i]); buf[strlen(buf)-1] = 0; printf(" %d %d", snoopy_util_syslog_convertFacilityToInt(buf), snoopy_util_syslog_convertLevelToInt(buf));
+    snprintf(buf, sizeof buf, "%s", N[i]); buf[0] |= 0x20; printf(" %d %d\\n", snoopy_util_syslog_convertFacilityToInt(buf), snoopy_util_syslog_convertLevelToInt(buf)); }
+  for (int c = 0; c < 1024; c++) { printf("S %d ", c); hx(snoopy_util_syslog_convertFacilityToStr(c)); printf(" "); hx(snoopy_util_syslog_convertLevelToStr(c)); printf("\\n"); }
+  return 0; }"""
+        out = probe(run, prog, "syslog")
+        dfl = cc_eval(run, [("f", "i", "SNOOPY_SYSLOG_FACILITY"), ("l", "i", "SNOOPY_SYSLOG_LEVEL")], ["syslog.h", '"snoopy.h"'])
+        if out and "f" in dfl:
+            unk = inv = None
+            names_, strs_ = {}, []
+            for l_ in out:
+                f_ = l_.split(" ")
+                if f_[0] == "U":
+                    unk = (int(f_[1]), int(f_[2]))
+                elif f_[0] == "I":
+                    inv = (bytes.fromhex(f_[1]), bytes.fromhex(f_[2]))
+                elif f_[0] == "N":
+                    names_[f_[1]] = list(map(int, f_[2:]))
+                elif f_[0] == "S":
+                    strs_.append((int(f_[1]), bytes.fromhex(f_[2]), bytes.fromhex(f_[3])))
+            ok_ = unk is not None and inv is not None and inv[0] == inv[1] and unk[0] in (-1, dfl["f"]) and unk[1] in (-1, dfl["l"])
+            if ok_:
+                tabs = {}
+                for col, key_i, key_s in ((0, "fac_to_int", "fac_to_str"), (1, "lvl_to_int", "lvl_to_str")):
+                    tstr = [(c_, (a_, b_)[col]) for c_, a_, b_ in strs_ if (a_, b_)[col] != inv[col]]
+                    back = dict((n_, c_) for c_, n_ in tstr)
+                    tint, pref_seen = [], set()
+                    for n_ in cand:
+                        r_ = names_.get(n_)
+                        if not r_:
+                            continue
+                        plain = r_[col]
+                        # a name of the table: not the unknown answer, or the unknown answer happens to be its own code
+                        if plain == unk[col] and back.get(n_.encode()) != plain:
+                            continue
+                        # exact match only: NAMEX, NAM, nAME, XYZ_NAME, LOGNAME, LOG_LOG_NAME are not names (unless listed themselves)
+                        variants = [r_[2 * k + col] for k in (2, 3, 4, 5, 6, 7)]
+                        labels = ["LOG_LOG_" + n_, "XYZ_" + n_, "LOG" + n_, n_ + "X", n_[:-1], n_[0].lower() + n_[1:]]
+                        if any(val != unk[col] and lab not in cand for val, lab in zip(variants, labels)):
+                            ok_ = False
+                        pref_seen.add(r_[2 + col] == plain)
+                        tint.append((n_.encode(), plain))
+                    tabs[key_i], tabs[key_s] = tint, tstr
+                    if len(pref_seen) != 1:
+                        ok_ = False
+                    tabs["strip%d" % col] = pref_seen == {True}
+                if ok_ and tabs["strip0"] == tabs["strip1"]:
+                    for k_ in ("fac_to_int", "fac_to_str", "lvl_to_int", "lvl_to_str"):
+                        v[k_] = tabs[k_] or None
+                    v["syslog_invalid"] = inv[0]
+                    del notes[n0:]
+                    note("util/syslog.c ladders read by evaluation of the four functions (textual form not an if/else-if ladder)")
+                    if v.get("util_strips") is None or v["util_strips"] != tabs["strip0"]:
+                        if v.get("util_strips") is None:
+                            v["util_strips"] = tabs["strip0"]
+                            if tabs["strip0"] and v.get("log_prefix") is None:
+                                v["log_prefix"] = b"LOG_"
+                        else:
+                            note("util/syslog.c: prefix handling read from the text and observed by evaluation disagree")
+                            v["util_strips"] = None
 
     # ---------------------------------------------------------------- util/parser.c
     pa = strip_comments(run.src("src/util/parser.c"))
@@ -424,7 +538,8 @@ def tr_config(run):
         plain = [f for f in opt_fmts if re.fullmatch(rb"%s([ =]+)%s\n", f)]
         quoted = [f for f in opt_fmts if re.fullmatch(rb'%s([ =]+)"%s"\n', f)]
         cont = [f for f in opt_fmts if re.fullmatch(rb"%s[ ]*=\n[ \t]+%s\n", f)]
-        typed = bool(re.search(r"if\s*\(\s*optionRegistry\s*\[\s*i\s*\]\s*\.data\.type\s*==\s*SNOOPY_CONFIGFILE_OPTION_TYPE_STRING\s*\)", ab))
+        ELEM = r"(?:optionRegistry\s*\[\s*\w+\s*\]\s*\.|\w+\s*->\s*)"          # optionRegistry[i].  or  option->
+        typed = bool(re.search(r"if\s*\(\s*(?:" + ELEM + r"data\.type\s*==\s*SNOOPY_CONFIGFILE_OPTION_TYPE_STRING|SNOOPY_CONFIGFILE_OPTION_TYPE_STRING\s*==\s*" + ELEM + r"data\.type)\s*\)", ab))
         if len(plain) == 1 and len(plain) + len(quoted) + len(cont) == len(opt_fmts) and len(quoted) <= 1 and len(cont) <= 1:
             asg = re.fullmatch(rb"%s([ =]+)%s\n", plain[0]).group(1)
             if quoted and (not typed or re.fullmatch(rb'%s([ =]+)"%s"\n', quoted[0]).group(1) != asg):
@@ -440,27 +555,54 @@ def tr_config(run):
                 if cont:
                     # which bytes the helper takes for whitespace (isspace / isblank / explicit comparisons) and which mark it looks for
                     hb = func_body(ac, "snoopy_cli_conf_valueNeedsContinuationLine") or ""
-                    m_ = re.search(r"if\s*\(\s*(.+?)\s*&&\s*value\s*\[\s*i\s*\+\s*1\s*\]\s*==\s*'(\\?.)'\s*\)\s*\{\s*return\s+1\s*;", hb, re.S)
-                    loop_ = re.search(r"for\s*\(\s*size_t\s+i\s*=\s*0\s*;\s*value\s*\[\s*i\s*\]\s*!=\s*'\\0'\s*;\s*i\+\+\s*\)", hb)
-                    ws_ = None
-                    if m_ and loop_ and len(re.findall(r"\bif\b", hb)) == 1 and re.search(r"\}\s*return\s+0\s*;\s*$", hb.strip()):
-                        t_ = m_.group(1).strip()
-                        cm_ = re.fullmatch(r"(isspace|isblank)\s*\(\s*\(\s*unsigned\s+char\s*\)\s*value\s*\[\s*i\s*\]\s*\)", t_)
+                    ws_, mark_ = None, None
+                    for cur_, nxt_, loop_re in (
+                            (r"value\s*\[\s*i\s*\]", r"value\s*\[\s*i\s*\+\s*1\s*\]", r"for\s*\(\s*size_t\s+i\s*=\s*0\s*;\s*value\s*\[\s*i\s*\]\s*!=\s*'\\0'\s*;\s*i\+\+\s*\)"),
+                            (r"\*\s*(?P<p>\w+)", r"(?:(?P=p)\s*\[\s*1\s*\]|\*\s*\(\s*(?P=p)\s*\+\s*1\s*\))", r"for\s*\(\s*const\s+char\s*\*\s*(\w+)\s*=\s*value\s*;\s*\*\s*\1\s*(?:!=\s*'\\0'\s*)?;\s*\1\+\+\s*\)")):
+                        m_ = re.search(r"if\s*\(\s*(?P<t>.+?)\s*&&\s*" + nxt_.replace("(?P=p)", r"\w+") + r"\s*==\s*'(?P<m>\\?.)'\s*\)\s*\{\s*return\s+1\s*;", hb, re.S)
+                        if not (m_ and re.search(loop_re, hb) and len(re.findall(r"\bif\b", hb)) == 1 and re.search(r"\}\s*return\s+0\s*;\s*$", hb.strip())):
+                            continue
+                        t_ = m_.group("t").strip()
+                        cur_plain = cur_.replace("(?P<p>\\w+)", r"\w+")
+                        cm_ = re.fullmatch(r"(isspace|isblank)\s*\(\s*\(\s*unsigned\s+char\s*\)\s*" + cur_plain + r"\s*\)", t_)
                         if cm_:
                             ws_ = b" \t\n\v\f\r" if cm_.group(1) == "isspace" else b" \t"
                         else:
                             parts_ = [x.strip() for x in t_.strip("()").split("||")]
-                            cs_ = [re.fullmatch(r"\(?\s*value\s*\[\s*i\s*\]\s*==\s*'(\\?.)'\s*\)?", x) for x in parts_]
+                            cs_ = [re.fullmatch(r"\(?\s*" + cur_plain + r"\s*==\s*'(\\?.)'\s*\)?", x) for x in parts_]
                             if all(cs_):
                                 ws_ = b"".join(c_unescape(x.group(1)) for x in cs_)
+                        if ws_ is not None:
+                            mark_ = c_unescape(m_.group("m"))
+                            break
+                    if ws_ is None:
+                        # any other loop shape: run the helper on every (byte, following byte) pair
+                        fd = func_def(ac, "snoopy_cli_conf_valueNeedsContinuationLine", "static int")
+                        out = probe(run, "#include <ctype.h>\n#include <stddef.h>\n#include <string.h>\n#include <stdio.h>\n" + (fd or "#error\n") + """
+int main(void){ char b[8]; int (*h)(const char * const) = snoopy_cli_conf_valueNeedsContinuationLine;
+  for (int w = 1; w < 256; w++) for (int m = 1; m < 256; m++) { if (w == m) continue;
+      b[0]='a'; b[1]=(char)w; b[2]=(char)m; b[3]='z'; b[4]=0; int mid = h(b);
+      b[0]=(char)w; b[1]=(char)m; b[2]='z'; b[3]=0; int start = h(b);
+      b[0]='a'; b[1]='b'; b[2]=(char)w; b[3]=(char)m; b[4]=0; int end = h(b);
+      if (mid != start || mid != end) { printf("X\\n"); return 0; }
+      if (mid) printf("%d %d\\n", w, m); }
+  b[0]=';'; b[1]='a'; b[2]=0; printf("E %d %d %d\\n", h(b), h(""), h("a;b")); return 0; }""", "conthelper") if fd else None
+                        if out and out[-1] == "E 0 0 0" and "X" not in out:
+                            pairs_ = [tuple(map(int, l.split())) for l in out[:-1]]
+                            wset, mset = sorted(set(a_ for a_, _ in pairs_)), sorted(set(b_ for _, b_ in pairs_))
+                            if pairs_ and len(pairs_) == len([1 for a_ in wset for b_ in mset if a_ != b_]):
+                                ws_, mark_ = bytes(wset), bytes(mset)
+                                note("action-conf.c: continuation test read by evaluation of the helper on every byte pair")
                     if ws_ is None:
                         note("action-conf.c: continuation test not recognised")
                         v["conf_cont"] = None
                     else:
-                        v["conf_cont_ws"], v["conf_cont_marks"] = ws_, c_unescape(m_.group(2))
+                        v["conf_cont_ws"], v["conf_cont_marks"] = ws_, mark_
     if v["conf_assign"] is None:
         note("action-conf.c print formats not recognised")
-    if not re.search(r'for\s*\(\s*int\s+i\s*=\s*0\s*;\s*0\s*!=\s*strcmp\s*\(\s*optionRegistry\s*\[\s*i\s*\]\s*\.name\s*,\s*""\s*\)\s*;\s*i\+\+\s*\)', ab):
+    walk_i = re.search(r'for\s*\(\s*int\s+(\w+)\s*=\s*0\s*;\s*0\s*!=\s*strcmp\s*\(\s*optionRegistry\s*\[\s*\1\s*\]\s*\.name\s*,\s*""\s*\)\s*;\s*\1\+\+\s*\)', ab)
+    walk_p = re.search(r'for\s*\(\s*(?:const\s+)?snoopy_configfile_option_t\s*(?:const\s*)?\*\s*(\w+)\s*=\s*optionRegistry\s*;\s*0\s*!=\s*strcmp\s*\(\s*\1\s*->\s*name\s*,\s*""\s*\)\s*;\s*\1\+\+\s*\)', ab)
+    if not (walk_i or walk_p):
         note("action-conf.c: registry walk not recognised")
         v["conf_assign"] = None
 
